@@ -256,8 +256,13 @@ impl InterfaceInner {
                 SixlowpanNextHeader::Uncompressed(proto) => {
                     // We have a 6LoWPAN uncompressed header.
                     match proto {
-                        IpProtocol::Tcp | IpProtocol::Udp | IpProtocol::Icmpv6 => {
-                            // There can be no protocol after this one, so we can just copy the
+                        IpProtocol::Tcp
+                        | IpProtocol::Udp
+                        | IpProtocol::Icmpv6
+                        | IpProtocol::HopByHop => {
+                            // Nothing behind an uncompressed header is compressed (an uncompressed
+                            // hop-by-hop header, as in the MLD reports this stack sends, is followed
+                            // by its uncompressed upper layer), so we can just copy the
                             // rest of the data buffer. There is also no length field in the UDP
                             // header that we need to correct as this header was not changed by the
                             // 6LoWPAN compressor.
